@@ -13,16 +13,17 @@ import (
 )
 
 type solverSpec struct {
-	name string
-	argv func(file string, timeoutS int) []string
+	name    string
+	argv    func(file string, timeoutS int) []string
+	proofOK bool // an "unsat" from this solver discharges an obligation
 }
 
 var solvers = []solverSpec{
-	{"z3-5.1.0", func(f string, t int) []string { return []string{"z3-new", fmt.Sprintf("-T:%d", t), f} }},
-	{"z3-4.8.12", func(f string, t int) []string { return []string{"/usr/bin/z3", fmt.Sprintf("-T:%d", t), f} }},
+	{"z3-5.1.0", func(f string, t int) []string { return []string{"z3-new", fmt.Sprintf("-T:%d", t), f} }, true},
+	{"z3-4.8.12", func(f string, t int) []string { return []string{"/usr/bin/z3", fmt.Sprintf("-T:%d", t), f} }, false},
 	{"cvc5-1.0", func(f string, t int) []string {
 		return []string{"cvc5", fmt.Sprintf("--tlimit=%d", t*1000), "--produce-models", f}
-	}},
+	}, true},
 }
 
 func (c *Ctx) smtText(o *Obligation) string { return c.smtTextQ(o, o.Expect == "sat") }
@@ -84,7 +85,11 @@ func runSolvers(file string, timeoutS int, all bool) (solveResult, []solveResult
 			}
 			switch first {
 			case "unsat":
-				v = "unsat"
+				// z3 4.8.12 returned a spurious unsat on a satisfiable T-Bytes query
+				// (see DESIGN.md, solver policy); its unsat answers are not trusted.
+				if s.proofOK {
+					v = "unsat"
+				}
 			case "sat":
 				v = "sat"
 			}
